@@ -19,7 +19,10 @@ import (
 //     rounds ModTime and picks USTAR, else PAX, else GNU);
 //   - that walkFS assigns none of the header fields the byte model keeps at
 //     their zero value (AccessTime, ChangeTime, Xattrs);
-//   - that writeTar closes the tar writer (two zero blocks).
+//   - that writeTar closes the tar writer (two zero blocks);
+//   - what the fs.WalkDir callback does when the context is cancelled (returns
+//     the error or ends the walk) and whether it tests the reported error before
+//     or after skipping the root path.
 //
 // No source positions are printed: moving code must not rebuild the proofs.
 func genC06() {
@@ -179,6 +182,86 @@ func genC06() {
 		"typeflags (byte values) for which walkFS copies extended attributes into PAX records")
 	g.def("c06_header_format", "N", fmt.Sprintf("%d%%N", format),
 		"tar.Header.Format as walkFS leaves it (0 FormatUnknown: never assigned; 2 USTAR, 4 PAX, 8 GNU)")
+
+	// 1b. the fs.WalkDir callback of walkFS: what it does with a cancelled
+	// context and with an error reported for the root
+	ctxReturned, rootChecked := false, false
+	if walk != nil {
+		var cb *ast.FuncLit
+		ast.Inspect(walk, func(n ast.Node) bool {
+			c, ok := n.(*ast.CallExpr)
+			if !ok || cb != nil || exprText(c.Fun) != "fs.WalkDir" || len(c.Args) != 3 {
+				return true
+			}
+			if fl, ok := c.Args[2].(*ast.FuncLit); ok {
+				cb = fl
+			}
+			return true
+		})
+		if cb == nil || len(cb.Type.Params.List) != 3 {
+			fail("%s: walkFS: no fs.WalkDir(fsys, root, func(path, d, err) error {...})", rel)
+		} else {
+			pname := func(i int) string {
+				if len(cb.Type.Params.List[i].Names) == 1 {
+					return cb.Type.Params.List[i].Names[0].Name
+				}
+				return "_"
+			}
+			pathVar, errVar := pname(0), pname(2)
+			ret := func(ifs *ast.IfStmt) string {
+				if len(ifs.Body.List) == 1 {
+					if r, ok := ifs.Body.List[0].(*ast.ReturnStmt); ok && len(r.Results) == 1 {
+						return exprText(r.Results[0])
+					}
+				}
+				return "<other>"
+			}
+			iCtx, iRoot, iErr := -1, -1, -1
+			for k, st := range cb.Body.List {
+				ifs, ok := st.(*ast.IfStmt)
+				if !ok || ifs.Else != nil {
+					continue
+				}
+				cond := exprText(ifs.Cond)
+				init := ""
+				if ifs.Init != nil {
+					init = exprText(ifs.Init)
+				}
+				switch {
+				case iCtx < 0 && (strings.Contains(init, "ctx.Err()") || strings.Contains(cond, "ctx.Err()")):
+					iCtx = k
+					r := ret(ifs)
+					v := ""
+					if as, ok := ifs.Init.(*ast.AssignStmt); ok && len(as.Lhs) == 1 && exprText(as.Rhs[0]) == "ctx.Err()" {
+						v = exprText(as.Lhs[0])
+					}
+					switch {
+					case r == "ctx.Err()" || (v != "" && r == v) || strings.HasPrefix(r, "fmt.Errorf(") || strings.HasPrefix(r, "context.Cause("):
+						ctxReturned = true
+					case r == "nil" || r == "fs.SkipAll" || r == "fs.SkipDir" || r == "filepath.SkipAll" || r == "filepath.SkipDir":
+						ctxReturned = false
+					default:
+						fail("%s: walkFS: the callback's answer to a cancelled context is not understood: return %s", rel, r)
+					}
+				case iRoot < 0 && (cond == pathVar+` == "."` || cond == `"." == `+pathVar) && ret(ifs) == "nil":
+					iRoot = k
+				case iErr < 0 && cond == errVar+" != nil" && ifs.Init == nil && ret(ifs) == errVar:
+					iErr = k
+				}
+			}
+			if iCtx < 0 {
+				fail("%s: walkFS: the callback does not test ctx.Err()", rel)
+			}
+			if iRoot < 0 || iErr < 0 {
+				fail("%s: walkFS: the callback has no `if %s == \".\" { return nil }` / `if %s != nil { return %s }` pair", rel, pathVar, errVar, errVar)
+			}
+			rootChecked = iErr >= 0 && iRoot >= 0 && iErr < iRoot
+		}
+	}
+	g.def("c06_ctx_err_returned", "bool", fmt.Sprintf("%v", ctxReturned),
+		"the fs.WalkDir callback of walkFS returns the error of a cancelled context (false: it ends the walk without one)")
+	g.def("c06_root_err_checked", "bool", fmt.Sprintf("%v", rootChecked),
+		"the callback tests the error fs.WalkDir reports BEFORE it skips the root path \".\" (false: an error of Stat/ReadDir of the root is dropped)")
 
 	// 2. writeTar closes the tar writer it was given
 	wt := findFunc(rel, "", "writeTar")
